@@ -379,14 +379,15 @@ func substParams(d dnf, f *ssa.Function, args []ssa.Value) dnf {
 	}
 	repl := map[string]string{}
 	for i, par := range f.Params {
-		if par.Name() == "" || par.Name() == "_" {
+		pn := baseParamName(par)
+		if pn == "" || pn == "_" {
 			continue
 		}
 		t := term(args[i])
 		if strings.HasPrefix(t, "&") && par.Type().String() == args[i].Type().String() {
 			// pointer receiver passed as pointer: terms of field access drop the &
 		}
-		repl[par.Name()] = strings.TrimPrefix(t, "&")
+		repl[pn] = strings.TrimPrefix(t, "&")
 	}
 	var out dnf
 	for _, cj := range d {
